@@ -20,8 +20,10 @@ def s_lex_random(rng):
         s = gen.gen_penman_string(rng, wf=maybe(rng, 0.5))
         if maybe(rng, 0.6):
             s = gen.perturb(rng, s)
-    else:
+    elif k < 0.92:
         s = gen.gen_token_soup(rng)
+    else:
+        s = '\n'.join(gen.gen_blank_line(rng) if maybe(rng, 0.6) else gen.gen_token_soup(rng, 3) for _ in range(rng.randint(1, 4)))
     s = gen.newline_variant(rng, s)
     op = {'op': 'lex', 'mode': 'triples' if maybe(rng, 0.3) else 'penman'}
     op.update(gen.container_variants(rng, s))
